@@ -4,6 +4,8 @@ R-C12-1  must-not taint: party_capacity and gens_capacity reach only loop bounds
          bytes or the chain seeds; chains are consumed as prefixes
 R-C12-2  padding and table have one origin (prover and verifier)      [= R-C01-2]
 R-C12-3  the prefix comparisons of the vector generators are made against the selected largest member and zip the two iterators directly
+R-C12-4  must-not taint: nothing absorbed into the proof transcript depends on the aggregation capacity of the parameters object
+         (a proof made under one capacity must replay under another)
 """
 from bpsa.facts import callee_decl, callee_name
 from bpsa.normal import canon
@@ -84,3 +86,20 @@ def run(ctx):
     cons = msm.consistency_fn(ctx, 'R-C12-3')
     if cons is not None:
         prefix_guards(ctx, 'R-C12-3', cons)
+
+    # ---- R-C12-4 the transcript does not see the capacity
+    from . import wire
+    for role in ('prover', 'verifier'):
+        body = wire.entry(ctx, role, 'R-C12-4')
+        if body is None:
+            continue
+        evs = [e for e in wire.entry_trace(ctx, body) if e.kind in ('append', 'append_u64', 'rekey')]
+        # (the prover's own messages A, L, R are points computed with the zero-padded table: the padding count mentions the capacity
+        # but multiplies zeros; the rule concerns the parameters and statement data that are absorbed as they are)
+        evs = [e for e in evs if e.data() is not None and not any(x.tag == 'call' and 'multiscalar_mul' in x[1] for x in walk(e.data()))]
+        bad = [e for e in evs if any(x.tag == 'field' and x[1] == 'party_capacity' for x in walk(e.data()))]
+        rep.floor('R-C12-4', '%s absorptions examined' % role, len(evs), 10)
+        rep.check(not bad, 'R-C12-4', 'R-C12-4/%s/transcript' % role, 'none of the %d absorptions of the %s depends on the parameters\' aggregation capacity' % (len(evs), role),
+                  'the %s absorbs data that depends on the aggregation capacity: %s' % (role, [((e.label() or b'?').decode('latin1'), short(e.data(), 80)) for e in bad[:3]]),
+                  ctx.where(bad[0].body, bad[0].bb) if bad else ctx.where(body))
+
